@@ -250,10 +250,37 @@ func c12Marshal(v any) (b []byte, err error) {
 
 var kC12Lib = run.NewKind("c12.lib", func(c *run.Ctx, t c12LibCase) *run.Fail {
 	c12Codes()
+	// texts returned by Marshal belong to the caller: keep every one of the batch (and a private copy taken at once) while
+	// the other values are marshalled, also from a second goroutine, and read them again at the end
+	held := make([][]byte, len(t.Vals))
+	snap := make([][]byte, len(t.Vals))
 	for i, tv := range t.Vals {
 		v := tv.V
+		if m, err := c12Marshal(v); err == nil {
+			held[i], snap[i] = m, bytes.Clone(m)
+		}
 		if f := c12LibOne(c, v); f != nil {
 			return prefixFail(f, "value #%d %s", i, c12Describe(v))
+		}
+	}
+	done := make(chan struct{})
+	go func() {
+		defer close(done)
+		for _, tv := range t.Vals {
+			c12Marshal(tv.V)
+		}
+	}()
+	for i := len(t.Vals) - 1; i >= 0; i-- {
+		c12Marshal(t.Vals[i].V)
+	}
+	<-done
+	for i := range held {
+		if !bytes.Equal(held[i], snap[i]) {
+			return &run.Fail{Detail: fmt.Sprintf("value #%d %s: the text gojq.Marshal returned was %s; after marshalling the other %d values of the batch the same slice reads %s",
+				i, c12Describe(t.Vals[i].V), clipS(string(snap[i]), 200), len(t.Vals)-1, clipS(string(held[i]), 200)), Sig: "c12.marshal-result-not-owned-by-caller"}
+		}
+		if held[i] != nil {
+			c.Count("marshal_results_reread_after_later_calls", 1)
 		}
 	}
 	c.AddEvals(int64(len(t.Vals)) - 1)
@@ -1122,6 +1149,33 @@ func c12Body(c *run.Ctx) {
 			part := vs[i:min(i+100, len(vs))]
 			kC12Lib.Do(c, c12LibCase{Tag: "classes", Vals: run.TVs(part)})
 			kC12CLI.Do(c, c12CLICase{Tag: "classes", Vals: run.TVs(part), Modes: modes, YAML: []int{-1, 1, 9}})
+		}
+	}
+
+	// 2b. numbers (and near-numbers) arriving as YAML text, in every position class
+	{
+		nums, others := c12YAMLSpellings()
+		c.Gauge("yaml_number_spellings", int64(len(nums)))
+		c.Gauge("yaml_other_spellings", int64(len(others)))
+		ym := []c12Mode{{Args: []string{"-c"}}, {Args: []string{}}, {Args: []string{"--tab"}}, {Args: []string{"-C"}}, c12IndentMode(1), {Args: []string{"-C", "-c"}, Colors: c12ColorSets[0]}}
+		for pos := 0; pos < 6; pos++ {
+			for i := 0; i < len(nums); i += 12 {
+				if !c.Mine() {
+					c.Skip()
+					continue
+				}
+				kC12YAMLIn.Do(c, c12YAMLInCase{Spell: nums[i:min(i+12, len(nums))], Pos: pos, Modes: ym})
+			}
+			for _, s := range others {
+				if pos != 0 && c.Quick() && len(s)%3 != pos%3 {
+					continue // same decision in every worker: sequence numbers stay aligned
+				}
+				if !c.Mine() {
+					c.Skip()
+					continue
+				}
+				kC12YAMLIn.Do(c, c12YAMLInCase{Spell: []string{s}, Pos: pos, Modes: ym[:3]})
+			}
 		}
 	}
 
